@@ -4,6 +4,7 @@
 mod c02;
 mod c03;
 mod c04;
+mod c05;
 mod c13;
 mod common;
 mod fmt06;
@@ -48,6 +49,7 @@ fn main() {
         let viols = match case["kind"].as_str().unwrap_or("") {
             "crash" => c03::replay(case),
             "fault" => c04::replay(case),
+            "delete" => c05::replay(case),
             "hist" => match case["rider"].as_str().unwrap_or("") {
                 "C02" => c02::replay(case),
                 r => {
@@ -77,6 +79,7 @@ fn main() {
         "C02" => c02::run(&report, &budget),
         "C03" => c03::run(&report, &budget),
         "C04" => c04::run(&report, &budget),
+        "C05" => c05::run(&report, &budget),
         _ => {
             eprintln!("unknown property {id}");
             std::process::exit(2);
